@@ -2,10 +2,16 @@ Require Import List.
 Require Import QtlVerif.FatalDefs QtlVerif.SrcFatal.
 Require Extraction.
 Require Import ExtrOcamlBasic.
-(* the model with the configuration read from the source and Qt's own buffering policy *)
-Definition run_src_fatal rej t msgs r := ids_of (survivors (run_fatal src_fatal_cfg qfile_policy rej t msgs r)).
-Definition run_src_kill rej t msgs := ids_of (survivors (log_all src_fatal_cfg qfile_policy rej t msgs)).
+(* the model with the configuration read from the source and Qt's own buffering policy; histories are
+   event lists (messages, explicit flush() calls, reconfigurations) *)
+Definition run_src_fatal rej t evs r := ids_of (survivors (run_events_fatal src_fatal_cfg qfile_policy rej t evs r)).
+Definition run_src_kill rej t evs := ids_of (survivors (run_events src_fatal_cfg qfile_policy rej t evs)).
+(* the same with the source as compiled with -DQTLOGGER_NO_THREAD *)
+Definition run_nth_fatal rej t evs r := ids_of (survivors (run_events_fatal src_fatal_cfg_nothread qfile_policy rej t evs r)).
+Definition run_nth_kill rej t evs := ids_of (survivors (run_events src_fatal_cfg_nothread qfile_policy rej t evs)).
 (* the specification, independent of the source: what must be in every file after qFatal(r) *)
-Definition expected_ids rej t msgs r := ids_of (expected rej t (msgs ++ (Fatal, r) :: nil)).
+Definition expected_ids rej t evs r := ids_of (expected_ev rej t evs r).
 Definition src_cfg_good := cfg_goodb src_fatal_cfg.
-Extraction "fatal_model.ml" run_src_fatal run_src_kill expected_ids prop_c11_b fresh src_cfg_good flush_on_fatal.
+Definition nth_cfg_good := cfg_goodb src_fatal_cfg_nothread.
+Extraction "fatal_model.ml" run_src_fatal run_src_kill run_nth_fatal run_nth_kill expected_ids prop_c11_ev_b final_sids
+  fresh src_cfg_good nth_cfg_good flush_on_fatal flush_on_fatal_nothread.
